@@ -105,5 +105,20 @@ mut("c19-normalize-list-prev", ["C19"], FDM, "        elif name == \"li\":\n    
 mut("c09-nodes-between-ge", ["C09"], F, "                end > from_\n                and f(child, node_start + pos, parent, i) is not False", "                end >= from_\n                and f(child, node_start + pos, parent, i) is not False", "node ending exactly at `from` is visited")
 mut("c09-node-at-text", ["C09"], N, "            if offset == pos or node.is_text:\n                return node\n            pos -= offset + 1", "            if offset == pos:\n                return node\n            if node.is_text:\n                return None\n            pos -= offset + 1", "node_at inside a text node returns nothing")
 
+TR = "prosemirror/transform/transform.py"
+mut("c18-fitter-opens-isolating-slice-node", ["C18", "C11"], RPL, "            if node.type.spec.get(\"isolating\") and open_end <= d:\n                start_depth = d\n                break\n", "", "slice-side isolating guard of the fitter removed (no clause of C18/C11 speaks about isolating nodes inside the slice: control)", expect="silent")
+mut("c19-finish-no-fill", ["C19"], FDM, "        if not open_end and self.match is not None:\n            content = content.append(", "        if False and not open_end and self.match is not None:\n            content = content.append(", "parser does not fill required content when closing a node")
+mut("c19-ws-collapse-keeps-tabs", ["C19"], FDM, "                value = re.sub(r\"[ \\t\\r\\n\\u000c]+\", \" \", value)", "                value = re.sub(r\"[ \\r\\n\\u000c]+\", \" \", value)", "tabs are not collapsed (whitespace detail, round trip of normal documents unaffected: control)", expect="silent")
+mut("c12-wrap-insert-count", ["C12"], TR, "                Slice(content, 0, 0),\n                len(wrappers),\n                True,", "                Slice(content, 0, 0),\n                len(wrappers) - (1 if len(wrappers) > 2 else 0),\n                True,", "three-level wraps put the content one level too high")
+mut("c12-find-wrapping-outside-outer", ["C12"], ST, "    outer = around[0] if len(around) and around[0] else type", "    outer = type", "outer wrapper not used for the fit test - only makes find_wrapping refuse more in the catalogue schemas, refusals are always allowed by C12 (control)", expect="silent")
+mut("c12-can-join-index", ["C12"], ST, "        pos_.parent.can_replace(index, index + 1)\n        if joinable(pos_.node_before, pos_.node_after)", "        pos_.parent.can_replace(index, index)\n        if joinable(pos_.node_before, pos_.node_after)", "can_join does not test the removal of the joined node - equivalent in the catalogue schemas (no parent there needs a minimum number >1 of joinable children) (control)", expect="silent")
+mut("c09-pos-at-index", ["C09"], RP, "        for i in range(index):\n            pos += node.child(i).node_size\n        return pos", "        for i in range(index):\n            pos += node.child(i).node_size if not node.child(i).is_text else len(node.child(i).text)\n        return pos", "pos_at_index counts code points for text children")
+mut("c09-after-size", ["C09"], RP, "            else cast(int, self.path[depth * 3 - 1])\n            + cast(\"Node\", self.path[depth * 3]).node_size", "            else cast(int, self.path[depth * 3 - 1])\n            + cast(\"Node\", self.path[depth * 3]).content.size\n            + 2", "control: equivalent for non-leaf ancestors", expect="silent")
+mut("c06-range-comma-max", ["C06"], C, "        max_ = parse_num(stream) if stream.next() != \"}\" else -1", "        max_ = parse_num(stream) if stream.next() != \"}\" else min_ + 1", "{n,} read as {n,n+1}")
+mut("c06-group-order", ["C15"], C, "    for _, type in types.items():\n        if name in type.groups:\n            result.append(type)", "    for _, type in types.items():\n        if name in type.groups:\n            result.insert(0, type)", "group members resolved in reverse schema order (default type / first filler changes)")
+mut("c03-add-step-skips-empty-map", ["C04"], TR, "        self.mapping.append_map(step.get_map())\n        self.doc = doc", "        if step.get_map().ranges:\n            self.mapping.append_map(step.get_map())\n        self.doc = doc", "mark/attr steps do not get a map entry: steps and maps misaligned")
+mut("c05-compute-attrs-default-falsy", ["C13"], S, "        if given is None:\n            attr = attrs[name]", "        if not given:\n            attr = attrs[name]", "falsy attribute values replaced by the default")
+mut("c01-from-replace-narrow", ["C03"], "prosemirror/transform/step.py", "        except ReplaceError as e:\n            return cls.fail(e.args[0])", "        except ReplaceError as e:\n            return cls.fail(e.args[0]) if e.args[0].startswith(\"In\") else cls.ok(doc)", "a refused replace is reported as success with the unchanged document")
+
 json.dump(M, open(os.path.join(os.path.dirname(os.path.abspath(__file__)), "mutations.json"), "w"), indent=1)
 print(len(M), "mutations")
